@@ -220,6 +220,7 @@ func TestPacketClient(t *testing.T) {
 }
 
 func runClientPlan(c pcfg, plan []step) (res pktResult) {
+	defer guard(&res)
 	res.labels = map[string]bool{}
 	fail := func(format string, a ...any) pktResult {
 		res.violation = "SIG=C04/harness " + fmt.Sprintf(format, a...)
